@@ -10,6 +10,7 @@ import numpy as np
 import common
 import mkdata
 import pipeline as P
+import c04ext
 from common import dec, req
 
 RULE = (
@@ -18,9 +19,25 @@ RULE = (
     "competed rows only (T3); (T2) non-interference on the real brew: the same table is re-run with labels flipped "
     "and features perturbed inside one fold only, with a linear SVM and with a memorising fully grown decision tree: "
     "the model that scores that fold (coefficients / pickled tree) must be bit-identical and the routing unchanged; "
-    "(T5) label-blind competition: the same table with coarse (often tied) scores is run with the labels swapped "
-    "inside every spectrum, the surviving PSM ids at PSM and peptide level must be identical; "
-    "distinct = distinct (data seed, learner, fold, alpha); non-trivial = every case"
+    "(T5) label swap, ONE-SIDED: the same table with coarse (often tied) scores is run with the labels swapped "
+    "inside every spectrum; where the PSM that represents a spectrum / peptide differs between the two runs it is a "
+    "violation only if that PSM is a TARGET in at least one of the runs (a tie decided for a target); a decoy in both "
+    "runs is a conservative tie-break (the property demands E[FDP] <= alpha, not label-blindness as such) and is "
+    "tallied as T5-conservative-tiebreak; "
+    "(T1 generator) 1-2 collections with own or shared result files, text/Parquet input, continuous or coarse (tied) "
+    "scores, higher- or lower-is-better, and with tie-free scores the decoys above the threshold are also counted "
+    "from the input table; "
+    "(T2x) brew options: real brew with a memorising probe estimator under ensemble on/off, a list of pre-trained "
+    "models in fold order / reversed / rotated, 1-2 collections, 1-3 workers, training cap, small prediction chunks: "
+    "without ensemble no returned score may come from a model that memorised the row or trained on its spectrum; "
+    "with ensemble the scores are compared with the Lean model (mean over all fold models); "
+    "(T5x/T1x) stand-alone roll-up tool on PSM-level result files with tied scores and ids shared between targets "
+    "and decoys: survivors vs the Lean model of the tool (tie rule included: decoy files first), counting inequality "
+    "on its output, and the same one-sided label-swap clause per level id; "
+    "(E2E) the command line (read_pin, brew or --load_models, assign_confidence; 1-2 files, --aggregate, "
+    "--keep_decoys, --ensemble, --subset_max_train) against an independent competition + C01 q-values on the scores "
+    "of a reference brew; "
+    "distinct = distinct (data seed, learner, fold, alpha / option tuple); non-trivial = every case"
 )
 ALPHAS = [Fraction(1, 100), Fraction(1, 20), Fraction(1, 10), Fraction(1, 4), Fraction(1, 2)]
 
@@ -40,7 +57,9 @@ def simulate(r, n_spectra, pi0=0.5):
         d = dict(base, SpecId=f"d{i}", Label=-1, feat0=r.gauss(0.0, 1.0), feat1=r.gauss(0, 1), feat2=r.gauss(0, 1),
                  Peptide=f"decoy_PEPT{i}K", Proteins=f"decoy_PROT{i % 11}")
         truth[f"t{i}"] = correct
-        rows += [t, d]
+        # the two PSMs of a spectrum in random order: the position in the file must carry no information about the
+        # label (ties between them are broken by position, see GAPS-C04.md)
+        rows += [t, d] if r.random() < 0.5 else [d, t]
     import pandas as pd
     out = pd.DataFrame(rows)[list(df.columns)]
     out["rowid"] = np.arange(len(out))
@@ -53,41 +72,90 @@ def counts_case(chk, rng):
 
     seed = rng.randrange(1 << 30)
     r = random.Random(seed)
-    df, truth = simulate(r, rng.choice([150, 300]))
+    ncoll = rng.choice([1, 1, 2])
+    shared = rng.random() < 0.5            # two collections without prefixes share (append to) the result files
+    fmt = rng.choice(["pin", "pin", "parquet"])
+    coarse = rng.choice([None, None, 4, 25])   # score levels: None = continuous (tie-free), else many tied scores
+    desc = rng.random() < 0.75
+    tabs = []
+    for k in range(ncoll):
+        df, truth = simulate(r, rng.choice([150, 300]) if ncoll == 1 else 120)
+        df["SpecId"] = [f"c{k}_{x}" for x in df["SpecId"]]
+        sc = df["feat0"].values.astype(float)
+        if coarse:
+            sc = np.clip(np.round(sc * coarse / 6.0), -coarse, coarse).astype(float)
+        tabs.append((df, sc))
     with P.workdir() as d:
-        ds = mkdata.read_dataset(mkdata.write_table(df, d / "in.pin"))
+        dss = [mkdata.read_dataset(mkdata.write_table(df, d / f"in{k}.{fmt}")) for k, (df, _) in enumerate(tabs)]
         out = d / "out"; out.mkdir()
+        prefixes = [None] * ncoll if (shared or ncoll == 1) else [f"p{k}" for k in range(ncoll)]
         try:
             with P.pep_kernel(stub=True):
-                P.run_assign_confidence([ds], [df["feat0"].values.astype(float)], out, prefixes=[None], decoys=True)
+                P.run_assign_confidence(dss, [sc if desc else -sc for _, sc in tabs], out, prefixes=prefixes,
+                                        descs=[desc] * ncoll, decoys=True)
         except Exception as e:
             chk.reject("assign_confidence-failed:" + type(e).__name__)
             return
-        for level in ("psms", "peptides"):
-            t = P.read_result(out / f"targets.{level}"); dd = P.read_result(out / f"decoys.{level}")
-            ids = list(t["PSMId"]) + list(dd["PSMId"])
-            if len(set(ids)) != len(ids):
-                chk.spec_violation("duplicate-rows-at-level", dict(seed=seed, level=level,
-                                                                   clause="a PSM occurs twice in a level file"))
-                return
-            # T3: one row per spectrum at the PSM level (the table has one target and one decoy per spectrum)
-            if level == "psms":
-                scans = df.set_index("SpecId").loc[ids, "ScanNr"]
-                if scans.duplicated().any():
-                    chk.spec_violation("qvalues-before-competition",
-                                       dict(seed=seed, clause="two PSMs of one spectrum in the PSM-level result"))
+        chk.count("T1-collections", ncoll); chk.count("T1-format", fmt); chk.count("T1-desc", desc)
+        chk.count("T1-scores", "continuous" if coarse is None else f"{2 * coarse + 1}-levels")
+        chk.count("T1-files", "shared" if (ncoll > 1 and shared) else "own")
+        for k, (df, sc) in enumerate(tabs):
+            pre = f"{prefixes[k]}." if prefixes[k] else ""
+            for level in ("psms", "peptides"):
+                t = P.read_result(out / f"{pre}targets.{level}"); dd = P.read_result(out / f"{pre}decoys.{level}")
+                if t is None or dd is None:
+                    chk.spec_violation("result-file-missing", dict(seed=seed, level=level, collection=k,
+                                                                   clause="a result file was not written"))
                     return
-            for a in ALPHAS:
-                at = int((t["q-value"] <= float(a)).sum()); ad = int((dd["q-value"] <= float(a)).sum())
-                chk.case(None, (seed, level, str(a)), sample=dict(seed=seed, level=level, alpha=str(a),
-                                                                accepted_targets=at, accepted_decoys=ad))
-                chk.count("T1-level", level)
-                if at > 0 and not (ad + 1 <= a * at):
-                    chk.spec_violation("counting-inequality",
-                                       dict(seed=seed, level=level, alpha=str(a), accepted_targets=at,
-                                            accepted_decoys=ad,
-                                            clause="accepted decoys + 1 > alpha x accepted targets"))
+                if not prefixes[k]:      # collections without prefix share files: split by identifier
+                    t = t[t["PSMId"].astype(str).str.startswith(f"c{k}_")]
+                    dd = dd[dd["PSMId"].astype(str).str.startswith(f"c{k}_")]
+                ids = list(t["PSMId"]) + list(dd["PSMId"])
+                if len(set(ids)) != len(ids):
+                    chk.spec_violation("duplicate-rows-at-level", dict(seed=seed, level=level,
+                                                                       clause="a PSM occurs twice in a level file"))
                     return
+                # T3: one row per spectrum at the PSM level (the table has one target and one decoy per spectrum)
+                if level == "psms":
+                    scans = df.set_index("SpecId").loc[ids, "ScanNr"]
+                    if scans.duplicated().any() or len(ids) != df["ScanNr"].nunique():
+                        chk.spec_violation("qvalues-before-competition",
+                                           dict(seed=seed, collection=k,
+                                                clause="the PSM-level result does not hold exactly one PSM per spectrum"))
+                        return
+                # decoys counted independently of the files (tie-free scores only: the winners are then determined)
+                indep = None
+                if coarse is None and level == "psms":
+                    lab = df.set_index("SpecId")["Label"]
+                    best = {}
+                    for sid, scan, v in zip(df["SpecId"], df["ScanNr"], sc):
+                        if scan not in best or v > best[scan][0]:
+                            best[scan] = (v, sid)
+                    indep = sorted(((v, lab[sid] == 1) for v, sid in best.values()), key=lambda x: -x[0])
+                    tsc = dict(zip(df["SpecId"], sc))
+                for a in ALPHAS:
+                    at = int((t["q-value"] <= float(a)).sum()); ad = int((dd["q-value"] <= float(a)).sum())
+                    chk.case(None, (seed, k, level, str(a)), sample=dict(seed=seed, level=level, alpha=str(a),
+                                                                    accepted_targets=at, accepted_decoys=ad))
+                    chk.count("T1-level", level)
+                    if at > 0 and not (ad + 1 <= a * at):
+                        chk.spec_violation("counting-inequality",
+                                           dict(seed=seed, level=level, alpha=str(a), accepted_targets=at,
+                                                accepted_decoys=ad, collection=k, collections=ncoll, format=fmt,
+                                                desc=desc, score_levels=coarse,
+                                                clause="accepted decoys + 1 > alpha x accepted targets"))
+                        return
+                    if indep is not None and at > 0:
+                        worst = min(tsc[i] for i in t["PSMId"][t["q-value"] <= float(a)])
+                        nd = sum(1 for v, tg in indep if not tg and v >= worst)
+                        if not (nd + 1 <= a * at):
+                            chk.spec_violation("counting-inequality-independent-decoy-count",
+                                               dict(seed=seed, level=level, alpha=str(a), accepted_targets=at,
+                                                    competed_decoys_at_or_above_threshold=nd, collection=k,
+                                                    clause="competed decoys (counted from the input table) scoring at "
+                                                           "least as well as the worst accepted target, + 1, exceed "
+                                                           "alpha x accepted targets"))
+                            return
 
 
 def label_blind_case(chk, rng):
@@ -121,24 +189,41 @@ def label_blind_case(chk, rng):
             lv = {}
             for level in ("psms", "peptides"):
                 t = P.read_result(out / f"targets.{level}"); dd = P.read_result(out / f"decoys.{level}")
-                lv[level] = sorted(list(t["PSMId"]) + list(dd["PSMId"]))
+                lv[level] = {**{i: True for i in t["PSMId"]}, **{i: False for i in dd["PSMId"]}}
             survivors.append(lv)
     ties = int(sum(1 for i in range(0, len(df), 2) if score[i] == score[i + 1]))
     chk.case(None, (seed, "label-blind"), sample=dict(seed=seed, kind="label-blind", spectra=len(df) // 2,
                                                       tied_spectra=ties, chunk=chunk))
     chk.count("T5-tied-spectra", min(ties, 10))
     chk.count("T5-chunk", str(chunk))
+    # one-sided clause: where the row representing a spectrum / a peptide differs between the two labellings, it is a
+    # violation only if that row is a TARGET in at least one of the runs (a tie decided for a target); a decoy in both
+    # runs is a conservative tie-break and is tallied.  The peptide level is judged per peptide when the PSM level is
+    # identical in both runs (otherwise its differences follow from the PSM level, which is judged).
+    ident = {"psms": dict(zip(df["SpecId"], zip(df["ScanNr"], df["ExpMass"]))),
+             "peptides": dict(zip(df["SpecId"], df["Peptide"]))}
     for level in ("psms", "peptides"):
         a, b = survivors
-        if a[level] != b[level]:
+        if sorted(a[level]) == sorted(b[level]):
+            continue
+        if level == "peptides" and sorted(a["psms"]) != sorted(b["psms"]):
+            chk.count("T5-peptide-level-follows-psm-level")
+            continue
+        surv = [{ident[level][i]: (i, tg) for i, tg in x[level].items()} for x in (a, b)]
+        bad, cons = c04ext.one_sided(*surv)
+        if cons:
+            chk.count("T5-conservative-tiebreak", level)
+        if bad:
             only_a = sorted(set(a[level]) - set(b[level]))[:6]
             only_b = sorted(set(b[level]) - set(a[level]))[:6]
             chk.spec_violation("competition-depends-on-labels",
                                dict(seed=seed, level=level, score_levels=levels, chunk=chunk,
+                                    identifiers=[str(k) for k in bad[:6]],
                                     survive_with_original_labels_only=only_a, survive_with_swapped_labels_only=only_b,
-                                    clause="the PSMs surviving the target-decoy competition change when the labels "
-                                           "are swapped although scores and spectra are unchanged: the competition "
-                                           "is not label-blind, so incorrect targets and decoys are not exchangeable"))
+                                    clause="the PSM surviving the target-decoy competition for a spectrum / peptide "
+                                           "changes when the labels are swapped although scores and spectra are "
+                                           "unchanged, and it is a TARGET in at least one of the two runs: a tie was "
+                                           "decided for a target, so incorrect targets are favoured over decoys"))
             return
 
 
@@ -243,7 +328,17 @@ def noninterference_case(chk, rng):
 
 
 def fdp_search(chk):
-    """failing-input search (a search tool only): Monte-Carlo FDP of the full pipeline with a memorising learner"""
+    """failing-input search (a search tool only): more cases of the extension kinds with the enlarged budget, then
+    the Monte-Carlo FDP of the full pipeline with a memorising learner"""
+    for _ in range(10 * chk.budget_mult):
+        c04ext.options_case(chk, chk.rng)
+        c04ext.rollup_tool_case(chk, chk.rng)
+        if chk.spec_violations:
+            return
+    for _ in range(2 * chk.budget_mult):
+        c04ext.pipeline_case(chk, chk.rng)
+        if chk.spec_violations:
+            return
     import random
     import mokapot
     from sklearn.tree import DecisionTreeClassifier
@@ -286,13 +381,28 @@ def main(chk, args):
     build = common.build_and_audit("C04")
     if not build.driver_ok:
         chk.finish(build, RULE)
-    n1, n2 = (4, 6) if chk.tier == "quick" else (40, 60)
-    for _ in range(n1):
-        counts_case(chk, chk.rng)
-    for _ in range(n2):
-        noninterference_case(chk, chk.rng)
-    for _ in range(6 if chk.tier == "quick" else 60):
-        label_blind_case(chk, chk.rng)
+    import time
+
+    walls = {}
+
+    def timed(kind, fn, n):
+        t0 = time.time()
+        for _ in range(n):
+            fn(chk, chk.rng)
+        walls[kind] = round(walls.get(kind, 0.0) + time.time() - t0, 2)
+
+    t0 = time.time()
+    c04ext.run_corpus(chk)
+    walls["corpus"] = round(time.time() - t0, 2)
+    quick = chk.tier == "quick"
+    n1, n2 = (4, 6) if quick else (40, 60)
+    timed("T1-counts", counts_case, n1)
+    timed("T2-noninterference", noninterference_case, n2)
+    timed("T5-label-blind", label_blind_case, 6 if quick else 60)
+    timed("T2x-brew-options", c04ext.options_case, 7 if quick else 120)
+    timed("T5x-rollup-tool", c04ext.rollup_tool_case, 5 if quick else 80)
+    timed("E2E-cli-pipeline", c04ext.pipeline_case, 2 if quick else 40)
+    chk.extra["wall_by_case_kind_s"] = walls
     lc = common.leanchecker("C04") if chk.tier == "thorough" else None
     chk.assumptions += [
         "PARTIAL: proved for all inputs are the mechanisms the statement names — the '+1' counting inequality of "
@@ -301,6 +411,11 @@ def main(chk, args):
         "cross-validation output (scores of fold g depend on the labels of fold f != g; no such theorem is known on "
         "paper); the classical fixed-ranking bound is attempted separately (Props/C04Fdr.lean when present).",
         "the Monte-Carlo simulation is used only as a failing-input search when a proof or check breaks",
+        "ensemble=True is, by design of the option, NOT held-out scoring (every PSM is scored by the mean of all fold "
+        "models, k-1 of which were trained on it; Lean: C04_ensemble_eq_spec, C04_ensemble_not_heldout): clause T2 is "
+        "claimed for ensemble=False only; the ensemble path is compared with its model, not judged",
+        "a list of pre-trained models re-scores the folds of the split drawn from the SAME seed; with another seed the "
+        "folds differ and the models have seen the rows they score (documented caller obligation, brew.py:54-59)",
     ]
     chk.finish(build, RULE, search=fdp_search, lc=lc,
                trusted_extra=["theorems of C01, C02, C03 (imported)", "sklearn LinearSVC / DecisionTreeClassifier determinism"])
@@ -309,4 +424,13 @@ def main(chk, args):
 def replay(chk, path):
     info = json.loads(open(path).read())
     print(json.dumps(info, indent=1)[:3000])
-    return 0
+    sig, case = str(info.get("signature", "")), info.get("case")
+    runner = {"T2x": c04ext.options_case, "T5x": c04ext.rollup_tool_case, "T1x": c04ext.rollup_tool_case,
+              "E2E": c04ext.pipeline_case}.get(sig[:3])
+    if runner is None or not isinstance(case, dict):
+        return 0
+    common.build_and_audit("C04")
+    runner(chk, chk.rng, case=case)
+    for s_, i in chk.spec_violations:
+        print("REPRODUCED", s_, i.get("clause"))
+    return 1 if chk.spec_violations else 0
